@@ -156,6 +156,8 @@ class Interface(ModelElement):
         node_id = self.topo.graph_model.find_child_connection_point_by_name(parent_node_id=self.node_id,
                                                                             iname=name)
 
+        # disconnect the child interface if it is connected to a network service
+        self.topo._disconnect_from_services([Interface(name=name, node_id=node_id, topo=self.topo)])
         self.topo.graph_model.remove_cp_and_links(node_id=node_id, delete_parent=False)
         # keep the cached list of child interfaces of this handle in step with the model
         self._interfaces = [i for i in self._interfaces if i.node_id != node_id]
